@@ -143,6 +143,103 @@ func init() {
 				heldToReturn = deferred == 1 && elsewhere == 0
 			}
 		}
+		// the read-modify-write may also be a function literal handed to a function of the package that brackets it:
+		// `withAccountLocked(subscriber, rg, func() { …read … write… })` with `mu.Lock(); defer mu.Unlock(); critical()` inside
+		if handler != nil && readsAndWrites && !lockBeforeRead {
+			var site *ast.CallExpr
+			argIdx := -1
+			for _, p := range pkgs {
+				for _, f := range p.Files {
+					ast.Inspect(f, func(n ast.Node) bool {
+						if c, ok := n.(*ast.CallExpr); ok {
+							for k, a := range c.Args {
+								if lit, ok := a.(*ast.FuncLit); ok && lit.Body == handler {
+									site, argIdx = c, k
+								}
+							}
+						}
+						return true
+					})
+				}
+			}
+			var wrapper *ast.FuncDecl
+			if site != nil {
+				if id, ok := site.Fun.(*ast.Ident); ok {
+					for _, p := range pkgs {
+						for _, f := range p.Files {
+							for _, d := range f.Decls {
+								if fd, ok := d.(*ast.FuncDecl); ok && fd.Recv == nil && fd.Name.Name == id.Name && fd.Body != nil {
+									wrapper = fd
+								}
+							}
+						}
+					}
+				}
+			}
+			if wrapper != nil {
+				// the name of the parameter the literal is bound to
+				param, k := "", 0
+				for _, fld := range wrapper.Type.Params.List {
+					for _, nm := range fld.Names {
+						if k == argIdx {
+							param = nm.Name
+						}
+						k++
+					}
+				}
+				callIdx, lockIdx := -1, -1
+				lockRecv := ""
+				for i, st := range wrapper.Body.List {
+					if es, ok := st.(*ast.ExprStmt); ok {
+						if c, ok := es.X.(*ast.CallExpr); ok {
+							if id, ok := c.Fun.(*ast.Ident); ok && id.Name == param && callIdx < 0 {
+								callIdx = i
+							}
+							if strings.HasSuffix(exprStr(c.Fun), ".Lock") && callIdx < 0 {
+								lockRecv, lockIdx = strings.TrimSuffix(exprStr(c.Fun), ".Lock"), i
+							}
+						}
+					}
+				}
+				if param != "" && callIdx >= 0 && lockIdx >= 0 && lockIdx < callIdx {
+					lockBeforeRead = true
+					deferred, elsewhere, calls := 0, 0, 0
+					ast.Inspect(wrapper.Body, func(n ast.Node) bool {
+						switch x := n.(type) {
+						case *ast.DeferStmt:
+							if exprStr(x.Call.Fun) == lockRecv+".Unlock" {
+								deferred++
+							}
+							return false
+						case *ast.GoStmt, *ast.FuncLit:
+							elsewhere++ // the literal must run in the wrapper's own task
+						case *ast.CallExpr:
+							if exprStr(x.Fun) == lockRecv+".Unlock" {
+								elsewhere++
+							}
+							if id, ok := x.Fun.(*ast.Ident); ok && id.Name == param {
+								calls++
+							}
+						}
+						return true
+					})
+					heldToReturn = deferred == 1 && elsewhere == 0 && calls == 1
+					args := ""
+					for k, a := range site.Args {
+						if k == argIdx {
+							continue
+						}
+						ast.Inspect(a, func(n ast.Node) bool {
+							if id, ok := n.(*ast.Ident); ok {
+								args += " " + strings.ToLower(id.Name)
+							}
+							return true
+						})
+					}
+					perAccount = strings.Contains(args, "subscriber") && (strings.Contains(args, "rg") || strings.Contains(args, "rating"))
+				}
+			}
+		}
 		fmt.Printf("/- GENERATED from the repository's working tree by `verifharness dump-tables abmfserver` — do not edit. -/\nnamespace Chf.Gen\n\n")
 		fmt.Printf("/-- pkg/abmf/abmf.go: handleCCR — how the read-modify-write of an account is bracketed -/\nstructure AbmfServerFacts where\n  lockBeforeRead : Bool\n  heldToReturn : Bool\n  perAccount : Bool\n  readsAndWrites : Bool\nderiving DecidableEq, Repr\n\n")
 		fmt.Printf("def abmfServer : AbmfServerFacts := ⟨%v, %v, %v, %v⟩\n\nend Chf.Gen\n", lockBeforeRead, heldToReturn, perAccount, readsAndWrites)
